@@ -347,15 +347,19 @@ namespace detail {
         {
             auto target = "[*]";
             auto star_pos = s.find(target);
+            if (star_pos == std::string::npos)
+            {
+                return occurrences;
+            }
             auto endl_after_pos = s.find("\n", star_pos);
             auto arrow_after_pos = s.find("->", star_pos);
-            if (star_pos != std::string::npos && 
-                star_pos < arrow_after_pos && 
+            if (star_pos < arrow_after_pos && 
                 arrow_after_pos < endl_after_pos)
             {
                 return count_inits(s.substr(endl_after_pos), occurrences + 1);
             }
-            return occurrences;
+            // a "State -> [*]" line: not an initial state, keep looking behind it
+            return count_inits(s.substr(star_pos + 3), occurrences);
         };
         constexpr int count_actions(std::string_view s)
         {
